@@ -158,6 +158,9 @@ fn termid_ops(_it: &mut Interp, toks: &[&str], out: &mut Vec<String>) -> bool {
         ["roundtrip", n] => {
             let Ok(n) = n.parse::<u32>() else { return false };
             let id = HpoTermId::from_u32(n);
+            if id.to_usize() != n as usize || id.as_u32() != n {
+                out.push(format!("oracle FAIL termid: to_usize / as_u32 of {n}"));
+            }
             let s = id.to_string();
             let p = HpoTermId::try_from(s.as_str()).ok().map(|x| x.as_u32());
             let bb = HpoTermId::from(id.to_be_bytes()).as_u32();
